@@ -27,7 +27,8 @@ RULE = (
     "self-coupled disciplines, optional tanh terms, optional non-coupling outputs, drawn list order and names; "
     "max-norm contraction factor q in {0.05,0.1,0.2,0.3} by construction), input and start values on a half-integer "
     "grid (or start values = exact solution rounded to 1/64, one case in three), and 1-3 MDA configurations: class in {Jacobi, GaussSeidel, NewtonRaphson, QuasiNewton, GSNewton, Sequential "
-    "of two solvers, MDAChain with each inner MDA}, every AccelerationMethod, over-relaxation in {0.6,0.8,1,1.2,1.3}, "
+    "of two solvers (the first one optionally with its own looser tolerance 1e-2 / 1e-4), MDAChain with each inner MDA "
+    "(optionally with every cycle handed over as one MDOChain / MDOParallelChain process discipline)}, every AccelerationMethod, over-relaxation in {0.6,0.8,1,1.2,1.3}, "
     "tolerance in {1e-6,1e-10,1e-13}, every ResidualScaling, warm start with a second execution at perturbed inputs, "
     "a permutation of the discipline list, Newton linear solver / matrix type, SciPy root method with or without "
     "gradient, Simple or JSON grammars.  Every configuration's returned data must (1) be reproduced by re-executing "
@@ -111,6 +112,9 @@ def configurations(draw):
         cfg["inner"] = draw(st.one_of(_solver_cfg(), _solver_cfg(), _solver_cfg(), st.just({"cls": "MDAGSNewton"})))
         if cfg["inner"]["cls"] == "MDAGSNewton":
             cfg["budget"] = draw(st.sampled_from([10, BUDGET]))
+        # every cycle of >= 2 disciplines handed over as ONE process discipline (MDOChain / MDOParallelChain of its
+        # members), self-coupled at the wrapper level: the MDAChain has to put an inner MDA around it
+        cfg["wrap"] = draw(st.sampled_from([None, None, "MDOChain", "MDOParallelChain"]))
     elif kind == "gsnewton":
         cfg["gs"] = draw(_solver_cfg(["MDAGaussSeidel"]))
         cfg["nr"] = draw(_solver_cfg(["MDANewtonRaphson"]))
@@ -118,6 +122,11 @@ def configurations(draw):
     else:
         cfg["seq"] = [draw(_solver_cfg()), draw(_solver_cfg())]
         cfg["first_budget"] = draw(st.sampled_from([1, 2, 3, BUDGET]))
+        # a cheap starter with its own, looser tolerance (it then gets the budget to reach it): the sequence
+        # must go on until ITS tolerance is met
+        cfg["first_tol"] = draw(st.sampled_from([None, None, 1e-2, 1e-4]))
+        if cfg["first_tol"] is not None:
+            cfg["first_budget"] = BUDGET
     return cfg
 
 
@@ -182,6 +191,8 @@ def build_mda(cfg: dict, discs: list):
             sub_common = dict(common)
             if k == 0:
                 sub_common["max_mda_iter"] = cfg["first_budget"]
+                if cfg.get("first_tol") is not None:
+                    sub_common["tolerance"] = max(cfg["first_tol"], cfg["tol"])
             sub = _mda_class(s["cls"])(discs, **sub_common, **_solver_settings(s))
             if s["cls"] == "MDANewtonRaphson":
                 sub.matrix_type = s["nr_matrix"]
@@ -189,6 +200,31 @@ def build_mda(cfg: dict, discs: list):
         mda = _mda_class("MDASequential")(discs, mda_sequence=subs, **common)
     mda.scaling = mda.ResidualScaling(cfg["scaling"])
     return mda
+
+
+def wrap_cycles(model: CoupledSystem, discs: list, order: list, kind: str) -> list:
+    """Replace the members of every cycle of >= 2 disciplines by one process discipline (in list order).
+
+    The wrapper (MDOChain: members executed one after the other; MDOParallelChain: all on the same data) is not
+    an MDA: it is a self-coupled discipline whose fixed point is the one of its members.
+    """
+    from gemseo.core.chains.chain import MDOChain
+    from gemseo.core.chains.parallel_chain import MDOParallelChain
+
+    group_of = {i: k for k, comp in enumerate(model.sccs()) if len(comp) > 1 for i in comp}
+    out, done = [], {}
+    for disc, i in zip(discs, order):
+        k = group_of.get(i)
+        if k is None:
+            out.append(disc)
+        elif k not in done:
+            members = [d for d, j in zip(discs, order) if group_of.get(j) == k]
+            if kind == "MDOChain":
+                done[k] = MDOChain(members, name=f"Chain{k}")
+            else:
+                done[k] = MDOParallelChain(members, name=f"Parallel{k}", use_threading=True, n_processes=1)
+            out.append(done[k])
+    return out
 
 
 def solver_parts(cfg: dict) -> list[dict]:
@@ -430,7 +466,7 @@ def is_scipy_nonlin_breakdown(exc: BaseException, cfg: dict) -> bool:
         return False
     frames = traceback.extract_tb(exc.__traceback__)
     in_scipy = bool(frames) and "scipy/optimize/_nonlin" in frames[-1].filename
-    return in_scipy and isinstance(exc, (ZeroDivisionError, ValueError))
+    return in_scipy and isinstance(exc, (ArithmeticError, ValueError))  # ZeroDivisionError, OverflowError, ...
 
 
 def iterations_of(mda) -> int:
@@ -580,6 +616,11 @@ def _case_mda(p, ctx):
             continue
         if is_quasi_newton_zero_solution(cfg, model, [sol1, sol2] if cfg["twice"] else [sol1]) and ctx.known("quasi_newton_zero_solution"):
             continue
+        if cfg["kind"] == "chain" and cfg.get("wrap") and info["n_scc_ge2"] >= 1:
+            discs = wrap_cycles(model, discs, order, cfg["wrap"])
+            ctx.cls("cycle_wrapped_in_" + cfg["wrap"])
+        if cfg["kind"] == "sequential" and cfg.get("first_tol") is not None and cfg["first_tol"] > cfg["tol"]:
+            ctx.cls(f"sequential_starter_tolerance={cfg['first_tol']}")
         mda = build_mda(cfg, discs)
         ctx.cls("cfg:" + tag, "scaling:" + cfg["scaling"], f"tol={cfg['tol']}")
         for s in parts:
